@@ -249,3 +249,43 @@ Example C05_negzero_kept_apart :
 Proof.
   destruct negzero_kept_apart as [p [Ha [Hc [Hk Hd]]]]. exists p. rewrite Hc. repeat split; assumption.
 Qed.
+From Coq Require Import ZArith Bool List String Arith.
+Require Import X.Base.Num X.Base.Value X.Syn.Ast X.Sem.Prim X.Sem.Sem X.BC.Instr X.BC.Compiler X.BC.VM X.BC.Decode.
+Require Import X.BC.Assemble X.BC.AssembleProofs.
+Import ListNotations.
+
+(* ---- lines to add to Props/C05.v ---- *)
+(* Tie of BC/Assemble.compile_items (the model compiler WITH the order of the makeConstant calls, i.e.
+   the numbering of the constant pool) to compiler/compiler.go by regeneration (gen/GenSchemes.v). *)
+Require Import X.BC.Schemes X.BC.SchemesItems X.gen.GenSchemes X.Bridge.BrSchemesItems.
+
+Theorem C05_compile_items_is_source_schemes :
+  forall rec mapenv e, node_compilable e = true ->
+  (forall y, In y (children e) -> rec y = Some (items_node mapenv y)) ->
+  interp_items GenSchemes.schemes rec mapenv e = Some (items_node mapenv e).
+Proof. exact schemes_step_items. Qed.
+Print Assumptions C05_compile_items_is_source_schemes.
+
+Theorem C05_compile_items_is_source_schemes_closed :
+  forall d mapenv c e, (esize e <= d)%nat -> compilable e = true ->
+  gen_items_program GenSchemes.schemes d mapenv c e = Some (compile_items_program mapenv c e).
+Proof. exact gen_items_program_is_compile_items_program. Qed.
+Print Assumptions C05_compile_items_is_source_schemes_closed.
+
+(* the bytes, constant pool and Locations of compiler.Compile are the assembler applied to what the
+   regenerated schemes produce *)
+Theorem C05_compile_bytes_from_source_schemes :
+  forall mapenv c e, compilable e = true ->
+  compile_bytes mapenv c e =
+  match gen_items_program GenSchemes.schemes (esize e) mapenv c e with
+  | Some its => assemble_items its
+  | None => None
+  end.
+Proof. exact compile_bytes_from_schemes. Qed.
+Print Assumptions C05_compile_bytes_from_source_schemes.
+
+Example C05_schemes_nonvacuous :
+  compilable c05_ex = true /\
+  gen_items_program GenSchemes.schemes (esize c05_ex) false CastInt64 c05_ex = Some (compile_items_program false CastInt64 c05_ex) /\
+  (exists p, compile_bytes false CastInt64 c05_ex = Some p /\ p_consts p = c05_ex_pool).
+Proof. split; [reflexivity|]. split; [vm_compute; reflexivity|]. eexists. split; vm_compute; reflexivity. Qed.
